@@ -15,7 +15,6 @@ def findOp (attr : String) : Option OpDecl := Gen.opTable.find? (·.attr == attr
 def lcaText : LcaResult → String
   | .ok d => "ok " ++ d.toText
   | .dataTypeError => "DataTypeError"
-  | .ambiguous => "ambiguous"
   | .internalError => "internal"
 
 def handle (j : Json) : Except String String := do
